@@ -55,7 +55,7 @@ def strip_parens(s):
 
 
 FRAME_RE = re.compile(r'^\s*#(\d+) 0x[0-9a-f]+ in (.*?) (/\S+?):(\d+)(?::\d+)?\s*$')
-FRAME_NOFILE_RE = re.compile(r'^\s*#(\d+) 0x[0-9a-f]+ in (.*?)\s+\((\S+)\+0x[0-9a-f]+\)\s*$')
+FRAME_NOFILE_RE = re.compile(r'^\s*#(\d+) 0x[0-9a-f]+(?: in (.*?))?\s+\((\S+)\+0x[0-9a-f]+\)\s*$')
 
 
 def norm_func(fn):
@@ -142,6 +142,15 @@ def classify_stderr(text):
             site = gil_site(stack)
             asite = gil_site(alloc_stack)
             tp = site is None and asite is None
+            # DESIGN 2.7: the faulting frame is inside an uninstrumented image library and the buffer was
+            # allocated by that library itself (no gil frame and no operator new in the allocation stack)
+            real = [l for l in stack if not re.search(r' in (__interceptor_|__asan|__sanitizer|__interception)', l)]
+            if real:
+                m0 = FRAME_NOFILE_RE.match(real[0])
+                if m0 and re.search(r'/lib(tiff|png|jpeg|z|turbojpeg)[^/]*\.so', m0.group(3)):
+                    alloc_txt = '\n'.join(alloc_stack)
+                    if alloc_stack and '/include/boost/gil/' not in alloc_txt and 'operator new' not in alloc_txt and 'sim_new' not in alloc_txt:
+                        tp = True
             if site is None:
                 site = 'no-gil-frame'
             if asite:
@@ -415,12 +424,14 @@ class WorkerPool:
                         except OSError:
                             pass
                         return
-            errbuf = []
+            import collections
+            errbuf = collections.deque(maxlen=1500)
 
             def read_err():
                 for ln in p.stderr:
-                    if len(errbuf) < 4000:
-                        errbuf.append(ln)
+                    if ln.startswith('libpng ') or ln.startswith('TIFF') or ln.startswith('JPEG'):
+                        continue
+                    errbuf.append(ln)
             te = threading.Thread(target=read_err, daemon=True)
             te.start()
             tw = threading.Thread(target=watchdog, daemon=True)
